@@ -79,6 +79,12 @@ func DrawStructural(rt *rapid.T, o StructOpt) *Subject {
 		if env.Opt.UserMethods {
 			e.Tags["usermethods"] = "1"
 		}
+		if t.Comparable() {
+			e.Tags["comparable"] = "1"
+		}
+		if t.Kind == progen.Basic && t.OrderedBasic() {
+			e.Tags["basic-ordered"] = "1"
+		}
 		AddRoles(p, used, e, t, id, o.Roles)
 	}
 	return s
@@ -133,14 +139,19 @@ func AddRoles(p *progen.Prog, used progen.Used, e *Entry, t *progen.Type, id str
 			addCtx(p, used, e, t, id, "compare", "int")
 		case "sort":
 			addCall(p, used, e, role, progen.Sort(ts, id), ukey("sort", progen.SliceOf(t)))
-		case "minl":
-			addCall(p, used, e, role, progen.MinMaxList("Min", ts, id), ukey("min", progen.SliceOf(t), t))
-		case "maxl":
-			addCall(p, used, e, role, progen.MinMaxList("Max", ts, id), ukey("max", progen.SliceOf(t), t))
-		case "mint":
-			addCall(p, used, e, role, progen.MinMaxTwo("Min", ts, id), ukey("min", t, t))
-		case "maxt":
-			addCall(p, used, e, role, progen.MinMaxTwo("Max", ts, id), ukey("max", t, t))
+		case "minl", "maxl", "mint", "maxt":
+			if t.Kind == progen.Basic && !t.OrderedBasic() {
+				continue
+			}
+			which := "Min"
+			if strings.HasPrefix(role, "max") {
+				which = "Max"
+			}
+			if strings.HasSuffix(role, "l") {
+				addCall(p, used, e, role, progen.MinMaxList(which, ts, id), ukey(role[:3], progen.SliceOf(t), t))
+			} else {
+				addCall(p, used, e, role, progen.MinMaxTwo(which, ts, id), ukey(role[:3], t, t))
+			}
 		case "contains":
 			addCall(p, used, e, role, progen.Contains(ts, id), ukey("contains", progen.SliceOf(t)))
 		case "unique":
@@ -151,7 +162,23 @@ func AddRoles(p *progen.Prog, used progen.Used, e *Entry, t *progen.Type, id str
 			addCall(p, used, e, role, progen.UnionIntersectList("Intersect", ts, id), ukey("intersect", progen.SliceOf(t)))
 		case "filter", "takewhile", "all", "any":
 			which := map[string]string{"filter": "Filter", "takewhile": "TakeWhile", "all": "All", "any": "Any"}[role]
-			addCall(p, used, e, role, progen.PredList(which, ts, id), ukey(role, progen.SliceOf(t)))
+			// these plugins register the element type (not the slice type)
+			addCall(p, used, e, role, progen.PredList(which, ts, id), ukey(role, t))
+		case "fmap", "fmapint":
+			r := ts
+			if role == "fmapint" {
+				r = "int"
+			}
+			ft := "func(" + ts + ") " + r
+			addCall(p, used, e, role, progen.Raw("fmap", "deriveFmap"+strings.Title(role)+id, []string{"f", "l"}, []string{ft, "[]" + ts}, "[]"+r),
+				"fmap|"+ft+"|"+progen.AssignKey(progen.SliceOf(t)))
+		case "fmapstr":
+			ft := "func(rune) " + ts
+			addCall(p, used, e, role, progen.Raw("fmap", "deriveFmapStr"+id, []string{"f", "s"}, []string{ft, "string"}, "[]"+ts), "fmap|"+ft+"|string")
+		case "join":
+			addCall(p, used, e, role, progen.Raw("join", "deriveJoin"+id, []string{"l"}, []string{"[][]" + ts}, "[]"+ts), ukey("join", progen.SliceOf(progen.SliceOf(t))))
+		case "joinstr":
+			addCall(p, used, e, role, progen.Raw("join", "deriveJoinStr"+id, []string{"l"}, []string{"[]string"}, "string"), "join|[]string")
 		case "set":
 			if t.Comparable() {
 				addCall(p, used, e, role, progen.Set(ts, id), ukey("set", progen.SliceOf(t)))
